@@ -1100,8 +1100,14 @@ class TransferManager(BaseManager):
                     PeerUploadFailed.Request(transfer.remote_path)
                 )
 
-            except PeerConnectionError:
+            except (ConnectionWriteError, PeerConnectionError):
+                # The downloader could not be told. If it noticed the broken
+                # connection first its request to queue the file again was
+                # ignored (this upload was still in progress) and it now waits
+                # for us: offer the file again instead of leaving it failed
                 logger.info("failed to send PeerUploadFailed message (possibly peer went offline)")
+                if transfer.state.VALUE == TransferState.FAILED:
+                    await transfer.state.queue()
 
         except asyncio.CancelledError:
             # Aborted or program shut down
